@@ -272,10 +272,17 @@ fn ipcslice(body_len: usize, off: i64, len: i64, rows: usize) -> String {
         pos += 8 + ml + bl;
     }
     let mut meta = metas[1].clone();
-    // buffers vector: (0,0) validity, (0, rows*4) values  -> patch the second entry
-    let mut pat = vec![0u8; 24];
-    pat.extend((rows as i64 * 4).to_le_bytes());
-    let at = (0..meta.len() - 31).rev().find(|&i| meta[i..i + 32] == pat[..]).expect("buffer entries");
+    // locate the second entry (the values buffer) of the buffers vector inside the message bytes
+    let at = {
+        let msg = arrow_ipc::root_as_message(&meta).unwrap();
+        let rb = msg.header_as_record_batch().unwrap();
+        let bufs = rb.buffers().unwrap();
+        if bufs.len() != 2 {
+            return format!("harness-error:buffers:{}", bufs.len());
+        }
+        let p: &arrow_ipc::Buffer = bufs.get(1);
+        (p as *const arrow_ipc::Buffer as usize) - (meta.as_ptr() as usize) - 16
+    };
     meta[at + 16..at + 24].copy_from_slice(&off.to_le_bytes());
     meta[at + 24..at + 32].copy_from_slice(&len.to_le_bytes());
     let msg = arrow_ipc::root_as_message(&meta).unwrap();
@@ -518,7 +525,15 @@ fn sweep(args: &Args, rng: &mut Rng) -> Vec<(String, String, usize)> {
             };
             push("xor:0:00".into(), "none", &mut out);
             for off in 0..n {
-                let vals: &[&str] = if thorough { &["set:ff", "set:00", "xor:01", "xor:80", "set:7f", "xor:10"] } else { &["set:ff", "set:00", "xor:01", "xor:80"] };
+                let vals: &[&str] = if thorough {
+                    &["set:ff", "set:00", "xor:01", "xor:80", "set:7f", "xor:10"]
+                } else if off % 4 == id % 4 {
+                    &["set:ff", "set:00", "xor:01", "xor:80"]
+                } else if off % 2 == 0 {
+                    &["set:ff", "xor:01"]
+                } else {
+                    &["xor:01"]
+                };
                 for v in vals {
                     let (k, x) = v.split_once(':').unwrap();
                     push(format!("{}:{}:{}", k, off, x), "byte", &mut out);
@@ -581,7 +596,7 @@ fn main() {
     }
     let args = parse_args();
     let mut sink = Sink::new(&args.out);
-    let timeout = Duration::from_secs(if args.tier == "thorough" { 20 } else { 8 });
+    let timeout = Duration::from_secs(if args.tier == "thorough" { 20 } else { 5 });
     let mut w = Worker::spawn(timeout);
     if args.mode == "replay" {
         for line in read_cases(args.replay.as_ref().unwrap()) {
